@@ -600,6 +600,26 @@ def main(argv):
                 seen.setdefault(sig, []).append(d)
             for sig, ds in sorted(seen.items())[:12]:
                 ds.sort(key=lambda d: len(d["ops"]))
+                # a shard that ran into its wall-clock limit answers `hang` at the op it was executing:
+                # on an overloaded machine that is no property of the code. Such a case counts only if
+                # it hangs (or diverges) again when executed alone.
+                kept, dropped = [], 0
+                for cand in ds:
+                    a = cand["at"]
+                    if a < len(cand["impl"]) and cand["impl"][a] in ("hang", "skipped") and len(kept) < 3:
+                        try:
+                            if not S.case_fails(cand["ops"], cand["kind"]):
+                                dropped += 1
+                                continue
+                        except Exception as e:
+                            notes.append("confirm failed: %s" % e)
+                    kept.append(cand)
+                if dropped:
+                    notes.append("%s: %d case(s) cut off by the shard time limit agreed when executed alone (ignored)" % (S.name, dropped))
+                    cov["suites"][S.name]["unreproduced_divergences"] = cov["suites"][S.name].get("unreproduced_divergences", 0) + dropped
+                ds = kept
+                if not ds:
+                    continue
                 if scfg.get("confirm_reruns", 0) and sig[0] == "model":
                     # suites with a documented source of nondeterminism in the real code (Go map
                     # iteration order): a model divergence counts only if the same case diverges again
